@@ -44,6 +44,7 @@ PATH_RULES = {
     "P-ACCUM": "weights of existing records are only changed by `+= weight` under the weighted flag",
     "P-DEL": "deleting a record deletes it from every id-keyed table and from the incidence lists of its nodes on every path",
     "P-DELJOINT": "a method that deletes a record from an id-keyed table itself (not through remove_edge) deletes it from every id-keyed table, the key table and the incidence lists on that path",
+    "P-BATCH": "add_edges calls add_edge for every item of the batch, also for records that already exist",
     "P-NODE": "add_node initialises all node tables under the `is new` guard and never overwrites non-empty metadata; remove_node deletes the node from all node tables and goes through remove_edge",
     "P-CLEAR": "clear() empties every table of the class",
     "P-ATOMIC": "no table / flag write precedes an explicit raise in the same method",
@@ -124,6 +125,8 @@ def run_container(ctx, prop: str, cls: str) -> Result:
         RC.check_neighbors(ctx, res, cls)
     with res.guard("RC.check_record_deletion_joint(ctx, res, cls)"):
         RC.check_record_deletion_joint(ctx, res, cls)
+    with res.guard("RC.check_batch_insert(ctx, res, cls)"):
+        RC.check_batch_insert(ctx, res, cls)
     with res.guard("RC.check_isolation(ctx, res, cls)"):
         RC.check_isolation(ctx, res, cls)
     with res.guard("RC.check_record_creation_guardedctx, res, cls"):
